@@ -83,12 +83,12 @@ def wBlocks : List Block := [⟨[str "404"], [⟨some 1, 201⟩]⟩]
     `MatcherSetsRaw = [{expression}]` to every route of the body, the `/a` was gone and the
     answer was 201. -/
 theorem handle_errors_inner_matcher_dropped_by_old_code :
-    (serveAdapted (adaptOld wBlocks) 404 ⟨0, 0, 3, 0, [], none, none⟩).map (·.status) = some (some 201) ∧
-    (serveAdapted (adapt wBlocks) 404 ⟨0, 0, 3, 0, [], none, none⟩).map (·.status) = some (some 404) ∧
-    (serveAdapted (adaptIntended wBlocks) 404 ⟨0, 0, 3, 0, [], none, none⟩).map (·.status) = some (some 404) := by
+    (serveAdapted (adaptOld wBlocks) 404 ⟨0, 0, 3, 0, [], none, none, 3, []⟩).map (·.status) = some (some 201) ∧
+    (serveAdapted (adapt wBlocks) 404 ⟨0, 0, 3, 0, [], none, none, 3, []⟩).map (·.status) = some (some 404) ∧
+    (serveAdapted (adaptIntended wBlocks) 404 ⟨0, 0, 3, 0, [], none, none, 3, []⟩).map (·.status) = some (some 404) := by
   decide
 
-example : (serveAdapted (adapt wBlocks) 404 ⟨0, 0, 1, 0, [], none, none⟩).map (·.status) = some (some 201) := by decide
+example : (serveAdapted (adapt wBlocks) 404 ⟨0, 0, 1, 0, [], none, none, 1, []⟩).map (·.status) = some (some 201) := by decide
 
 /-! ### the whole site: the adapted error routes behave as the Caddyfile says -/
 
@@ -225,6 +225,6 @@ theorem handle_errors_site_behaves_as_written (blocks : List Block) (s : Nat) (r
     simp only [serve, hr, he]
 
 example : (serveAdapted (adapt [⟨[str "5xx"], [⟨none, 211⟩]⟩, ⟨[str "404", str "4xx"], [⟨some 1, 201⟩, ⟨none, 202⟩]⟩]) 404
-    ⟨0, 0, 3, 0, [], none, none⟩).map (·.status) = some (some 202) := by decide
+    ⟨0, 0, 3, 0, [], none, none, 3, []⟩).map (·.status) = some (some 202) := by decide
 
 end CaddyModel.C05
